@@ -571,3 +571,51 @@ Fixpoint krun (ideal : bool) (kk : kkind) (m : list (Z * Z)) (l : list kop) : li
   | [] => []
   | o :: l' => let '(m', r) := kstep ideal kk m o in r :: krun ideal kk m' l'
   end.
+
+(* ================= named map types with methods ( type M map[string]int; func (M) Len() int ) ================= *)
+(* goMapGetOwnProperty looks the name up as a KEY first; only a name that is no
+   live key falls back to a method of the map type.  So an entry whose key
+   spells a method name shadows the method.  A script write under a method name
+   that is not yet a key is dropped silently by otto ([[Put]] sees the method's
+   property and goMapDefineOwnProperty refuses its attributes without throwing):
+   the property asks for the entry to be created.  Methods are not enumerated.
+   [len_id]: the name of a zero-argument method returning len(m). *)
+Inductive nop := NM (o : mop) | NCallLen.
+
+Definition nstep (ideal : bool) (methods : list Z) (len_id : Z) (m : list (Z * Z)) (o : nop) : list (Z * Z) * ob :=
+  let is_method (k : Z) := existsb (Z.eqb k) methods in
+  match o with
+  | NM (MJGet k) =>
+      (m, match m_get m k with
+          | Some v => o_num v
+          | None => if is_method k then (4, 0) else o_undef
+          end)
+  | NM (MJHas k) =>
+      (m, o_bool (match m_get m k with Some _ => true | None => is_method k end))
+  | NM (MJSet k v) =>
+      match m_get m k with
+      | None =>
+          if is_method k && negb ideal then (m, o_ok)     (* dropped before any conversion *)
+          else match conv_elem ideal v with
+               | inr c => (m, o_err c)
+               | inl x => (m_set m k x, o_ok)
+               end
+      | Some _ =>
+          match conv_elem ideal v with
+          | inr c => (m, o_err c)
+          | inl x => (m_set m k x, o_ok)
+          end
+      end
+  | NM o' => mstep ideal m o'
+  | NCallLen =>
+      (m, match m_get m len_id with
+          | Some _ => o_err 6                      (* the entry shadows the method: not a function *)
+          | None => o_num (Z.of_nat (length m))
+          end)
+  end.
+
+Fixpoint nrun (ideal : bool) (methods : list Z) (len_id : Z) (m : list (Z * Z)) (l : list nop) : list ob :=
+  match l with
+  | [] => []
+  | o :: l' => let '(m', r) := nstep ideal methods len_id m o in r :: nrun ideal methods len_id m' l'
+  end.
